@@ -639,6 +639,9 @@ class Inventory:
                     for k, v in q.store.items():
                         if k[0] == 'L' and v[0] == 'const' and isinstance(v[1], int) and not isinstance(v[1], bool) and body.local_ty(k[1]).get('s') == 'usize' and v[1] > 0:
                             lows.setdefault(k[1], set()).add(v[1])
+                        elif k[0] == 'L' and v[0] == 'bin' and body.local_ty(k[1]).get('s') == 'usize' and body.name_of(k[1]):
+                            # a cursor that starts at a computed position (`n + 1` after a search): the candidate 1 <= cursor, verified below like any other
+                            lows.setdefault(k[1], set()).add(1)
             for l, ks in lows.items():
                 if len(ks) != 1:
                     continue
